@@ -401,7 +401,7 @@ ASSIGNS = [
 
 
 def elim_shape(src, failures):
-    sh = {'sameSource': False, 'sameIterator': False, 'sameColumns': False, 'subjRefs': 'unchecked'}
+    sh = {'sameSource': False, 'sameIterator': False, 'sameColumns': False, 'subjRefs': 'unchecked', 'sameSection': False}
     W = '_remove_self_joins_no_condition: '
     try:
         fn = src.func('mapping/mapping_parser.py', '_remove_self_joins_no_condition', cls='MappingParser')
@@ -428,6 +428,9 @@ def elim_shape(src, failures):
             sh['sameSource'] = True
         elif t == "str(rml_rule['iterator']) == str(parent_triples_map_rule['iterator'])":
             sh['sameIterator'] = True
+        elif t == "rml_rule['source_name'] == parent_triples_map_rule['source_name']":
+            # the repair of C07_F5: both rules come from the same configuration section
+            sh['sameSection'] = True
         else:
             failures.append(W + 'unrecognised test `' + t[:140] + '`')
     core = ib[1].body
@@ -559,7 +562,7 @@ def generate(src, env, out, summary):
         es = elim_shape(src, failures)
     except Exception as e:  # noqa
         failures.append('_remove_self_joins_no_condition: translator error ' + repr(e))
-        es = {'sameSource': False, 'sameIterator': False, 'sameColumns': False, 'subjRefs': 'unchecked'}
+        es = {'sameSource': False, 'sameIterator': False, 'sameColumns': False, 'subjRefs': 'unchecked', 'sameSection': False}
     try:
         oq = object_query_shape(src, failures)
     except Exception as e:  # noqa
@@ -584,7 +587,7 @@ def generate(src, env, out, summary):
              '/-- `MappingParser._remove_self_joins_no_condition` -/',
              'def elimShape : ElimShape :=',
              f'  {{ sameSource := {_b(es["sameSource"])}, sameIterator := {_b(es["sameIterator"])}, sameColumns := {_b(es["sameColumns"])}, '
-             f'subjRefs := .{es["subjRefs"]} }}', '',
+             f'subjRefs := .{es["subjRefs"]}, sameSection := {_b(es["sameSection"])} }}', '',
              '/-- the object-map part of `RML_PARSING_QUERY` -/',
              f'def objectQueryShape : ObjectQueryShape := .{oq}', '',
              f'def joinTranslated : Bool := {_b(not failures)}', '',
